@@ -99,6 +99,7 @@ class Snapshot(HarnessBase):
 
     def __init__(self, variables, units, n_inst=3, where='between', idx=0, time_units=None):
         self.time_units = list(time_units) if time_units else None
+        self.idx = idx
         self.variables = None if variables is None else tuple(variables)
         self.units = dict(units)
         self.n_inst = n_inst
@@ -127,6 +128,9 @@ class Snapshot(HarnessBase):
         rec = dict(times=times, tt=tt, hist={'%d|%s|%d' % k: v for k, v in hist.items()}, raised=None,
                    names=[e.name for e in els], advertised=[sorted(e.time_variables.keys()) for e in els])
         try:
+            if self.idx % 2:
+                # the powertrain was already asked for another snapshot (other instant, other selection): no memory allowed
+                pt.snapshot(target_time=gu.Time(times[0], 'sec'), variables=['torque', 'pwm'], print_data=False)
             df = pt.snapshot(target_time=gu.Time(tt, 'sec'), variables=None if self.variables is None else list(self.variables),
                              print_data=False, **kw)
         except ValueError as e:
